@@ -929,6 +929,22 @@ func registerStd() {
 			return r
 		}
 	}
+	bePut := func(n int) NativeFn {
+		return func(m *Machine, fr *frame, args []Value) Value {
+			s := args[len(args)-2].(Slice)
+			x := args[len(args)-1].(*smt.Term)
+			if s.Len < n {
+				fr.goPanic("index out of range", fmt.Sprintf("binary.BigEndian.PutUint%d on %d bytes", n*8, s.Len))
+			}
+			for i := 0; i < n; i++ {
+				*s.at(n - 1 - i) = m.C.Extract(x, 8*i+7, 8*i)
+			}
+			return nil
+		}
+	}
+	I["(encoding/binary.bigEndian).PutUint16"] = bePut(2)
+	I["(encoding/binary.bigEndian).PutUint32"] = bePut(4)
+	I["(encoding/binary.bigEndian).PutUint64"] = bePut(8)
 	I["(encoding/binary.bigEndian).Uint16"] = beUint(2)
 	I["(encoding/binary.bigEndian).Uint32"] = beUint(4)
 	I["(encoding/binary.bigEndian).Uint64"] = beUint(8)
